@@ -873,6 +873,17 @@ def _truth_under(test: ast.AST, consts: Dict[str, Any]) -> Optional[bool]:
     return None
 
 
+def _through_bool_locals(m: Func, test: ast.AST, once: Dict[str, List[ast.AST]]) -> List[ast.AST]:
+    """the test and the definitions of the boolean locals it names (`ref_is_free = codec.ref() not in self._protocols`, `if ref_is_free:`)"""
+    out = [test]
+    for x in ast.walk(test):
+        if isinstance(x, ast.Name) and isinstance(x.ctx, ast.Load):
+            vs = once.get(x.id, [])
+            if len(vs) == 1 and isinstance(vs[0], (ast.Compare, ast.BoolOp, ast.UnaryOp)):
+                out.append(vs[0])
+    return out
+
+
 def _table_stores(ctx: Ctx, reg: Class, m: Func, guards: List[str], depth: int, consts: Optional[Dict[str, Any]] = None) -> List[Tuple[str, str, str]]:
     """(table attribute, 'unconditional' | 'guarded', where) for stores self.<table>[...] = codec reachable from m"""
     out: List[Tuple[str, str, str]] = []
@@ -902,7 +913,7 @@ def _table_stores(ctx: Ctx, reg: Class, m: Func, guards: List[str], depth: int, 
             t = n.value.attr
             guarded = bool(guards) or _dominated_by_table_test(m, n, tables, consts)
             for a in _anc(m, n):
-                if isinstance(a, ast.If) and any(isinstance(x, ast.Attribute) and x.attr == t for x in ast.walk(a.test)):
+                if isinstance(a, ast.If) and any(isinstance(x, ast.Attribute) and x.attr in tables for e_ in _through_bool_locals(m, a.test, _once) for x in ast.walk(e_)):
                     if _truth_under(a.test, consts) is None:   # a test decided by a constant flag of the caller guards nothing
                         guarded = True
             out.append((t, "guarded" if guarded else "unconditional", m.loc(n)))
@@ -913,7 +924,7 @@ def _table_stores(ctx: Ctx, reg: Class, m: Func, guards: List[str], depth: int, 
             if g is not None and g is not m:
                 sub_guards = list(guards)
                 for a in _anc(m, n):
-                    if isinstance(a, ast.If) and any(isinstance(x, ast.Attribute) and x.attr in tables for x in ast.walk(a.test)):
+                    if isinstance(a, ast.If) and any(isinstance(x, ast.Attribute) and x.attr in tables for e_ in _through_bool_locals(m, a.test, _once) for x in ast.walk(e_)):
                         sub_guards.append(unparse(a.test, 40))
                 # constants handed to the helper (`self._register(codec, takes_precedence=True)`)
                 sub_consts: Dict[str, Any] = {}
